@@ -1,6 +1,6 @@
 SPEC = {
     "id": "C08",
-    "n": {"quick": 300, "thorough": 20000},
+    "n": {"quick": 300, "thorough": 15000},
     "coq_modules": ["Reactive.Replay"],
     "components": {"1": "no model task stands at the recorded critical section", "2": "recorded critical section not enabled in the model",
                    "3": "recorded observable (snapshot of out / shouldInvalidate / shouldRelease / flags / output) differs from the model's",
@@ -18,6 +18,8 @@ SPEC = {
         "compute functions are sequential scripts of AddDependency+read / reactive.Cache / InvalidateAfter / error returns; every read of a slot is preceded by AddDependency on the slot's resource in the same computation",
         "a key is not nested inside a Cache call of the same key (the per-key lock would deadlock: usage error)",
         "the per-key ctxMutex is not modelled (never contended by sequential scripts); timer durations are abstracted to 'may fire'",
+        "labels that have no counterpart in the Go program are rejected by the model's step function: a node id that does not exist, addOut(n, n) (self-deadlock), a second handler on a node that already has one (panics in Go), an error unwinding across frames of different rerunners",
+        "a slot's Resource is re-created by the harness when its Cleanup callback runs (a released Resource stays invalid for ever, by design of reactive.Resource)",
     ],
     "manifest": {
         "text": "Coq theorems (Props/C08.v) over an executable labelled transition system of the reactive graph and rerunner (one label per critical section, tasks = goroutines with continuation frames) quantify over all label lists; on every run the event log recorded inside the implementation's locks under seeded perturbation and scripted pauses is replayed through the model (every event must be an enabled step with equal observables) and the property is evaluated directly on the implementation (no superseded version in the final output, directly or through cached children; every Resource cleanup callback ran exactly once after everything stopped and never twice).",
